@@ -44,7 +44,9 @@ func verifC05PanicMessageE2E() {
 	n := verifChoose(4 + 2*verifTier())
 	v := verifNondetString("msg", n)
 	ctx, lit := verifLitCtx(v)
-	call := &ast.CallExpr{Fun: &ast.Ident{Name: "panic"}, Args: []ast.Expr{lit}}
+	fun := &ast.Ident{Name: "panic"}
+	ctx.info.Uses = map[*ast.Ident]types.Object{fun: types.Universe.Lookup("panic")}
+	call := &ast.CallExpr{Fun: fun, Args: []ast.Expr{lit}}
 	var e coq.Expr
 	rejected := verifTry(func() { e = ctx.callExpr(call) })
 	if rejected {
